@@ -83,10 +83,12 @@ def propagateGlobals (globals : List Arg) (autoHelpSub : Bool) (sc : Cmd) : Cmd 
   if sc.name == b_help && autoHelpSub then sc else
   sc.withArgs (globals.foldl (fun acc a => if acc.any (fun x => x.id == a.id) then acc else acc ++ [a]) sc.args)
 
-/-- `_build_self` for one level (subcommands receive globals but are not built yet) -/
-def buildSelf (c : Cmd) : Cmd :=
+/-- the body of `_build_self` for one level (subcommands receive globals but are not built yet);
+NOT idempotent on its own: a second run would add the help/version args again and re-run the arg build -/
+def buildSelfCore (c : Cmd) : Cmd :=
   let st0 := c.settings
-  let st := { st0 with disableHelpSubcommand := st0.disableHelpSubcommand || !c.hasSubcommands,
+  let st := { st0 with built := true,
+                       disableHelpSubcommand := st0.disableHelpSubcommand || !c.hasSubcommands,
                        -- `if ArgsNegateSubcommands { set(SubcommandsNegateReqs) }`
                        subcommandNegatesReqs := st0.subcommandNegatesReqs || st0.argsConflictsWithSubcommands }
   -- `_check_help_and_version`
@@ -110,6 +112,9 @@ def buildSelf (c : Cmd) : Cmd :=
   let subs2 := (subs1.map inherit).map (propagateGlobals globals (!st.disableHelpSubcommand))
   let (args3, groups) := buildArgs args2 1 c.groups
   (((c.withSettings st).withArgs args3).withGroups groups).withSubs subs2
+
+/-- `_build_self`: `if !self.is_set(AppSettings::Built) { … self.settings.set(Built) }` -/
+def buildSelf (c : Cmd) : Cmd := if c.settings.built then c else buildSelfCore c
 
 /-- eager build of the whole tree; `fuel` bounds the depth (`Cmd` is a nested inductive) -/
 def buildAll : Nat → Cmd → Cmd
